@@ -56,7 +56,7 @@ func isSetMethod(c *ssa.CallCommon, name string) bool {
 
 func ruleR19a(h *H) {
 	const rule = "R19a"
-	h.Rule(rule, "K1", "ensemble Select: the success return is only reached under selected.Size() == Replicas; every id written into the result is the id added to the selected set", 2)
+	h.Rule(rule, "K1", "ensemble Select: the success return is only reached under selected.Size() == Replicas; every id written into the result is the id added to the selected set", 1)
 	for _, fn := range h.P.Funcs {
 		if fn.Parent() != nil || ir.RelPkg(ir.PkgPathOf(fn)) != "coordinator/selectors/ensemble" || fn.Name() != "Select" || fn.Signature.Recv() == nil {
 			continue
@@ -335,6 +335,19 @@ func ruleR19c(h *H) {
 				for _, g := range ir.CmpGuards(in) {
 					if g.Op == token.NEQ {
 						good = true
+					}
+				}
+				if !good && len(c.Args) > 0 {
+					// build-then-remove: every member is added and the replaced node is taken
+					// out of the same set again on every path to the emission
+					isRemove := func(x ssa.Instruction) bool {
+						c2 := ir.CallOf(x)
+						return c2 != nil && isSetMethod(c2, "Remove") && len(c2.Args) > 0 && ir.Canon(c2.Args[0]) == ir.Canon(c.Args[0])
+					}
+					if hf == fn {
+						if pass, _ := ir.MustPass(fn, in, send, isRemove); pass {
+							good = true
+						}
 					}
 				}
 				h.Verdict(good, rule, fmt.Sprintf("selected set excludes the replaced node #%d in %s", adds, ir.FuncName(fn)), h.pos(in), "ensemble members are added unless they are the node being replaced", "every ensemble member (including the node to replace) is marked as selected, or none is: the replacement could be a current member")
